@@ -67,10 +67,14 @@ static int ref_stage2(const ref_dcfg *c, const hx_buf *in, hx_buf *out, unsigned
         if (b < 0x80) { hb_putc(out, (int) b); i++; continue; }
         if (b >= 0xc0 && b <= 0xdf) { need = 1; cp = b & 0x1f; min = 0x80; }
         else if (b >= 0xe0 && b <= 0xef) { need = 2; cp = b & 0x0f; min = 0x800; }
-        else if (b >= 0xf0 && b <= 0xf7) { need = 3; cp = b & 0x07; min = 0x10000; }
+        else if (b >= 0xf0 && b <= 0xf4) { need = 3; cp = b & 0x07; min = 0x10000; }        /* RFC 3629: F5..FF never appear */
         else { *fl |= RF_UTF8_INVALID; wellformed = 0; hb_putc(out, c->bestfit ? (int) c->bestfit_repl : (int) b); i++; continue; }
         size_t j = i + 1; int k = 0;
-        while (k < need && j < in->n && (in->p[j] & 0xc0) == 0x80) { cp = (cp << 6) | (in->p[j] & 0x3f); j++; k++; }
+        while (k < need && j < in->n && (in->p[j] & 0xc0) == 0x80) {
+            /* RFC 3629: nothing above U+10FFFF (F4 is followed by 80..8F), no surrogates (ED is followed by 80..9F) */
+            if (k == 0 && ((b == 0xf4 && in->p[j] > 0x8f) || (b == 0xed && in->p[j] > 0x9f))) break;
+            cp = (cp << 6) | (in->p[j] & 0x3f); j++; k++;
+        }
         if (k < need) { *fl |= RF_UTF8_INVALID; wellformed = 0; hb_putc(out, c->bestfit ? (int) c->bestfit_repl : (int) b); i++; continue; }
         multi = 1;
         if (cp < min) *fl |= RF_UTF8_OVERLONG;
@@ -241,6 +245,21 @@ static int worker(int argc, char **argv) {
         for (;;) {
             if (counter++ % hx_shard_n == hx_shard_i) { curlen = 0; for (int i = 0; i < len; i++) { memcpy(cur + curlen, T[idx[i]].t, T[idx[i]].n); curlen += (int) T[idx[i]].n; } all_cfgs(); if ((counter & 1023) == 0 && hx_deadline_hit()) goto out; }
             int k = len - 1; while (k >= 0 && ++idx[k] == NT) idx[k--] = 0; if (k < 0) break;
+        }
+    }
+    /* byte-value layer: every byte value in the '?' positions of a few templates (one or two variable bytes), all configurations:
+     * covers every 2-byte and every 0xE0-led 3-byte UTF-8 sequence, every %XY pair incl. invalid digits, every %u00XY */
+    {
+        static const char *const TPL[] = { "/?", "/a?b", "/%?", "/%?0", "/%0?", "/%u00?", "/%u?000", "/\xc3?", "/\xe0?\x80", "/\xe0\xa0?", "/\xf0\x90\x80?", "/?/../a", "/.?/a",
+                                           "/??", "/%??", "/\xe0??", "/%u00??", "/%u??2f", "/\xef??", "/\xed??", "/\xf0??\x80", "/\xf4??\x80", "/\xf5??\x80", "/?\x80\x80?" };
+        for (size_t t = 0; t < sizeof TPL / sizeof TPL[0] - (thorough ? 0 : 5); t++) {          /* the five 4-byte / surrogate templates at the end: thorough tier */
+            int len = (int) strlen(TPL[t]), nq = 0; for (int i = 0; i < len; i++) nq += TPL[t][i] == '?';
+            for (int v = 0; v < (nq == 2 ? 65536 : 256); v++) {
+                if (counter++ % hx_shard_n != hx_shard_i) continue;
+                int k = 0; for (int i = 0; i < len; i++) cur[i] = TPL[t][i] == '?' ? (uint8_t) (k++ == 0 ? (v & 0xff) : (v >> 8)) : (uint8_t) TPL[t][i];
+                curlen = len; all_cfgs();
+                if ((counter & 1023) == 0 && hx_deadline_hit()) goto out;
+            }
         }
     }
     /* binding slice (IDS personality defaults) */
